@@ -81,18 +81,34 @@ def oracle(case, impl):
     saves = [l for l in impl if l.startswith("b 102 ")]
     if not saves:
         return ["count: no save observation"]
-    _, vals, data = parse_b(saves[0])
     p = case.meta.get("prog")
+    if p is not None:
+        # every file saved from the object is judged: the first one, a second one from the same object, one saved
+        # after a further section was added
+        fl = []
+        for k, sv in enumerate(saves):
+            _, vals, data = parse_b(sv)
+            if vals[0] != 1:
+                fl.append("save: save() number %d returned false" % (k + 1)); continue
+            data = data or b""
+            im = elfimg.decode(data)
+            if im is None:
+                fl.append("decode: the bytes of save number %d are not a decodable ELF image" % (k + 1)); continue
+            explicit = {i + 2: (s_["addr"] is not None) for i, s_ in enumerate(p.sections)}
+            members = [[m + 2 for m in g["members"]] for g in p.segments]
+            if any(m >= len(im.sections) for mm in members for m in mm) or len(members) > len(im.segments):
+                fl.append("decode: save number %d lacks sections or segments of the program" % (k + 1)); continue
+            fl += [("save %d: " % (k + 1) if k else "") + f for f in structural(im, data, explicit, members)]
+        return fl
+    _, vals, data = parse_b(saves[0])
     if vals[0] != 1:
-        return ["save: save() returned false"] if p is not None else []
+        return []
     data = data or b""
     im = elfimg.decode(data)
     if im is None:
         return ["decode: the saved bytes are not a decodable ELF image"]
     if p is not None:
-        explicit = {i + 2: (s["addr"] is not None) for i, s in enumerate(p.sections)}
-        members = [[m + 2 for m in g["members"]] for g in p.segments]
-        return structural(im, data, explicit, members)
+        return []
     # re-saved loaded image: membership as the loader recorded it (observed before saving)
     mem = []
     for l in impl:
@@ -123,10 +139,42 @@ def kf_c04_nobits_gap(case, impl):
                 prev = p.sections[mem[k - 1]]
                 if prev["addr"] is not None and s["addr"] > prev["addr"] + (0 if prev["type"] == 8 else prev["size"]):
                     hit = True
-    fl = oracle(case, impl)
+    fl = [strip_save(f) for f in oracle(case, impl)]
     # the ignored gap shows as a short memory size and, for a nested segment starting at that section, as a
-    # file offset that does not follow the address
+    # file offset that does not follow the address (in every file saved from the object)
     return hit and bool(fl) and all(f.startswith(("memsz: segment", "congruent: segment")) for f in fl)
+
+
+def strip_save(f):
+    import re
+    return re.sub(r"^save \d+: ", "", f)
+
+
+def kf_c04_nobits_second_save(case, impl):
+    """An automatically addressed no-bits section that needs alignment padding inside a segment (the C06 finding
+    nobits-padding-second-save): the first save() aligns the file position before it, a later save() of the same
+    object (address now recorded, no-bits excluded from the address-derived gap) does not - in the later file the
+    section's offset is not a multiple of its alignment. Only failures of exactly that kind, in a save after the
+    first, on such a section."""
+    import re
+    p = case.meta.get("prog")
+    if p is None:
+        return False
+    fl = oracle(case, impl)
+    if not fl:
+        return False
+    member = set(m for g in p.segments for m in g["members"])
+    for f in fl:
+        m = re.match(r"^save (\d+): aligned: section (\d+) ", f)
+        if not m or int(m.group(1)) < 2:
+            return False
+        i = int(m.group(2)) - 2
+        if not (0 <= i < len(p.sections)):
+            return False
+        sec = p.sections[i]
+        if not (sec["type"] == 8 and sec["addr"] is None and i in member):
+            return False
+    return True
 
 
 def nontrivial(case):
@@ -141,7 +189,16 @@ def generate(rng, tier):
     n = 400 if tier == "quick" else 4000
     for i in range(n):
         p = buildprog.gen_prog(rng, cfg=CFGS[i % 4], small=(i % 3 == 0))
-        cases.append(Case("p%d" % i, p.lines + ["save"], {"prog": p}))
+        tail = ["save"]
+        if i % 4 == 1:
+            tail = ["save", "save"]                        # the same object saved again
+        elif i % 4 == 3:
+            # saved, a further section (outside every segment) added, saved again
+            k = len(p.sections) + 2
+            tail = ["save", "addsec " + hx(b".added"), "secset %d type 1" % k, "secset %d addralign %d" % (k, rng.choice([0, 1, 4, 16])),
+                    "dset %d %s" % (k, hx(rbytes(rng, rng.choice([1, 7, 64, 300])))), "save"]
+        lines = p.lines + tail
+        cases.append(Case("p%d" % i, lines, meta_from_lines(lines) if len(tail) > 2 else {"prog": p}))
     k = 0
     for f in sorted(glob.glob("/repo/tests/elf_examples/*")):
         if os.path.isdir(f) or os.path.getsize(f) > (60000 if tier == "quick" else 1000000):
@@ -157,8 +214,13 @@ def generate(rng, tier):
 
 
 def distribution(cases):
-    d = {"programs": 0, "resaved_images": 0, "segments_with_members": 0, "explicit_segments": 0, "nested": 0}
+    d = {"programs": 0, "resaved_images": 0, "segments_with_members": 0, "explicit_segments": 0, "nested": 0, "saved_twice": 0,
+         "saved_again_after_adding_a_section": 0, "members_added_with_a_smaller_alignment": 0}
     for c in cases:
+        ns = sum(1 for l in c.lines if l == "save")
+        d["saved_twice"] += ns == 2 and c.lines[-2] == "save"
+        d["saved_again_after_adding_a_section"] += ns == 2 and c.lines[-2] != "save"
+        d["members_added_with_a_smaller_alignment"] += sum(1 for l in c.lines if l.startswith("segadd "))
         p = c.meta.get("prog")
         if p is None:
             d["resaved_images"] += 1; continue
